@@ -568,10 +568,137 @@ fn state_case(rng: &mut Rng, rep: &mut Report) {
     }
 }
 
+/// (iii) the state model of a query's own search instance: features contributed by the traversal and access models of
+/// an application built from TOML, overridden per query through `state_features`
+fn instance_case(case_no: usize, rng: &mut Rng, rep: &mut Report) {
+    use crate::appgen::{build_app, AppSpec};
+    use crate::run::Alg;
+    use crate::world::{gen_world, AccessCfg, WorldParams};
+    let mut p = WorldParams::default();
+    p.net.min_v = 4;
+    p.net.max_v = 10;
+    p.allow_turn_delay = true;
+    p.mixed_units = false;
+    p.random_initials = false;
+    p.surcharges = false;
+    let world = gen_world(rng, &p);
+    let has_time = world.uses_time();
+    let has_delay = matches!(world.access, AccessCfg::TurnDelay { .. });
+    let spec = AppSpec::basic(world.clone(), Alg::Dijkstra);
+    let built = match catch(|| build_app(&spec, "c11")) {
+        Ok(Ok(b)) => b,
+        Ok(Err(e)) => {
+            rep.violate("C11|instance|CompassApp::try_from|load-error", format!("well-formed configuration refused: {}", e.lines().next().unwrap_or("")), || json!({"toml": e}));
+            return;
+        }
+        Err(pm) => {
+            rep.violate(&format!("C11|instance|CompassApp::try_from|{}", panic_sig(&pm)), pm, || json!({}));
+            return;
+        }
+    };
+    for i in 0..4 {
+        rep.eval();
+        let mode = ["no-override", "override-distance", "override-time", "override-both"][rng.below(4)];
+        let (mut du, mut di, mut tu, mut ti) = (world.state.dist_unit, world.state.dist_init, world.state.time_unit, world.state.time_init);
+        let mut sf = serde_json::Map::new();
+        if mode == "override-distance" || mode == "override-both" {
+            du = *rng.pick(&U::DISTANCE_UNITS);
+            di = if rng.chance(0.3) { 0.0 } else { (rng.frange(0.0, 80.0) * 16.0).round() / 16.0 };
+            sf.insert("distance".into(), json!({"distance_unit": du.to_string(), "initial": di}));
+        }
+        if has_time && (mode == "override-time" || mode == "override-both") {
+            tu = *rng.pick(&U::TIME_UNITS);
+            ti = if rng.chance(0.3) { 0.0 } else { (rng.frange(0.0, 80.0) * 16.0).round() / 16.0 };
+            sf.insert("time".into(), json!({"time_unit": tu.to_string(), "initial": ti}));
+        }
+        let mut q = json!({"qid": format!("i{case_no}q{i}"), "origin_vertex": 0, "destination_vertex": 1});
+        if !sf.is_empty() {
+            q["state_features"] = Value::Object(sf);
+        }
+        let replay = || json!({"toml": built.toml, "query": q});
+        let si = match catch(|| built.app.search_app.build_search_instance(&q)) {
+            Ok(Ok(si)) => si,
+            Ok(Err(e)) => {
+                let t = e.to_string();
+                if t.contains("unknown state variable name") {
+                    // an override for a feature that comes from the [state] section rather than from the models is refused by name
+                    rep.count("instance_overrides_refused_(feature_not_declared_by_a_model)", 1);
+                } else {
+                    rep.violate(&format!("C11|instance|build-error|{mode}"), format!("a well-formed query was refused: {t}"), replay);
+                }
+                continue;
+            }
+            Err(pm) => {
+                rep.violate(&format!("C11|instance|{}", panic_sig(&pm)), pm, replay);
+                continue;
+            }
+        };
+        let sm = si.state_model.clone();
+        // M2 slots 0..n-1, one per feature, the features being exactly those of the configuration and the models
+        let mut idx: Vec<(usize, String)> = sm.indexed_iter().map(|(i, (k, _))| (i, k.clone())).collect();
+        idx.sort();
+        let mut want: Vec<&str> = vec!["distance"];
+        if has_time || has_delay {
+            want.push("time");
+        }
+        let mut names: Vec<&str> = idx.iter().map(|(_, k)| k.as_str()).collect();
+        names.sort();
+        want.sort();
+        if names != want || idx.iter().enumerate().any(|(i, (j, _))| i != *j) || sm.len() != want.len() {
+            rep.violate(&format!("C11|instance|slots|{mode}"), format!("M2 the search instance's state model has slots {idx:?}, the configuration and the models declare {want:?}"), replay);
+            continue;
+        }
+        // M3 the initial state holds the declared initial values (the query's where it overrides)
+        let init = match sm.initial_state() {
+            Ok(v) => v,
+            Err(e) => {
+                rep.violate(&format!("C11|instance|initial_state-error|{mode}"), format!("M3 initial_state failed: {e}"), replay);
+                continue;
+            }
+        };
+        if init.len() != want.len() {
+            rep.violate(&format!("C11|instance|initial-state-length|{mode}"), format!("M3 initial state has {} entries for {} features", init.len(), want.len()), replay);
+            continue;
+        }
+        let got_d = sm.get_distance(&init, &"distance".to_string(), &du).map(|d| d.as_f64()).map_err(|e| e.to_string());
+        let got_t = if want.contains(&"time") { Some(sm.get_time(&init, &"time".to_string(), &tu).map(|t| t.as_f64()).map_err(|e| e.to_string())) } else { None };
+        let d_ok = matches!(&got_d, Ok(x) if *x == di);
+        let t_ok = match &got_t {
+            None => true,
+            Some(Ok(x)) => *x == ti || !has_time && *x == 0.0,
+            Some(Err(_)) => false,
+        };
+        if !d_ok || !t_ok {
+            rep.violate(&format!("C11|instance|initial-value|{mode}"), format!("M3 the query declares distance {di} {du} / time {ti} {tu}; read from initial_state() in those units: {got_d:?} / {got_t:?}"), replay);
+            continue;
+        }
+        // M4 / M5 a named update touches its own slot only and reads back
+        let mut st = init.clone();
+        let v = (rng.frange(1.0, 500.0) * 16.0).round() / 16.0;
+        let slot_d = idx.iter().find(|(_, k)| k == "distance").map(|(i, _)| *i).unwrap_or(0);
+        if let Err(e) = sm.set_distance(&mut st, &"distance".to_string(), &Distance::new(v), &du) {
+            rep.violate(&format!("C11|instance|set-error|{mode}"), format!("M5 set_distance failed: {e}"), replay);
+            continue;
+        }
+        let back = sm.get_distance(&st, &"distance".to_string(), &du).map(|d| d.as_f64()).unwrap_or(f64::NAN);
+        if back != v || st.iter().enumerate().any(|(i, x)| i != slot_d && x.0 != init[i].0) {
+            rep.violate(&format!("C11|instance|named-update|{mode}"), format!("M4/M5 set_distance({v} {du}) reads back {back}; state before {:?} after {:?}", init.iter().map(|s| s.0).collect::<Vec<_>>(), st.iter().map(|s| s.0).collect::<Vec<_>>()), replay);
+            continue;
+        }
+        rep.count("instance_state_models_confirmed", 1);
+        rep.seen("instance_modes", format!("{mode}|{}", if has_delay { "turn_delay" } else if has_time { "speed" } else { "distance" }));
+        if mode != "no-override" {
+            rep.nontrivial(hash_str(&format!("instance|{}|{mode}|{du}|{di}|{tu}|{ti}", world.net.ne())));
+        }
+    }
+}
+
 pub fn run(tier: Tier, seed: u64) -> MonOut {
     let n = tier.n(400_000, 15_000_000);
     let rep = par_cases(seed, n, |i, rng, rep| {
-        if i % 2 == 0 {
+        if i % 2000 == 1999 {
+            instance_case(i, rng, rep)
+        } else if i % 2 == 0 {
             map_case(rng, rep)
         } else {
             state_case(rng, rep)
@@ -579,7 +706,7 @@ pub fn run(tier: Tier, seed: u64) -> MonOut {
     });
     MonOut {
         report: rep,
-        rule: "(i) random operation sequences on CompactOrderedHashMap<u32,i64> (empty/new/from/from_iter with and without duplicate keys, up to 200 insert|overwrite|clone steps, key universes 3..40) with the complete read API compared against an insertion-ordered Vec reference after every step; (ii) StateModel built by new / try_from(json) / extend chains over 0..14+ features of the four kinds with overlapping names, then random named set/add/get sequences. non-trivial = final size >= 6, an overwrite past the 5th key, or >= 2 extensions; distinct by operation history".into(),
+        rule: "(i) random operation sequences on CompactOrderedHashMap<u32,i64> (empty/new/from/from_iter with and without duplicate keys, up to 200 insert|overwrite|clone steps, key universes 3..40) with the complete read API compared against an insertion-ordered Vec reference after every step; (ii) StateModel built by new / try_from(json) / extend chains over 0..14+ features of the four kinds with overlapping names, then random named set/add/get sequences; (iii) one case in 2000: an application built from generated TOML (distance or speed traversal, with or without turn delays) and, per query, SearchApp::build_search_instance with `state_features` overrides of unit and initial value: the instance's state model has exactly the declared features in slots 0..n-1, its initial state holds the query's initial values in the query's units, and a named update touches its own slot only. non-trivial = final size >= 6, an overwrite past the 5th key, or >= 2 extensions; distinct by operation history".into(),
         assumptions: vec![
             "reference semantics of an insertion-ordered map: a key keeps the position of its first insert and the value of its last".into(),
             "IndexedEntry fields are private; their values are read through the Debug rendering".into(),
